@@ -71,6 +71,12 @@ add("C12", "exploration",
     "A cap proves termination only for the inputs tried. After an error the model only requires termination and absence of panics.",
     "DESIGN.md section 4/C12")
 
+add("C13", "exploration",
+    "round-trip of accepted texts (parse, print, parse) with a fixed-point check, over grammar-based alternative spellings, lenient tokens and filtered mutations",
+    "Exploration: the input domain is text the parser accepts, not printer output: layouts with every alternative spelling the layout generator knows, lenient and digit-initial and Racket symbols, and mutated/random inputs filtered to the accepted ones (acceptance rate reported and required to stay above 20%). Oracle: parse(print(parse(text))) equals the documented folding of parse(text) within the C05 tolerance, and the printed text is a fixed point after one step when the reader is exact for every float involved. Both feature configurations are run.",
+    "Trusts printer_for(Q) and M_fold (DESIGN.md A.1/A.3). The first parse is taken at face value: what the text *should* mean is C05/C08/C12's subject.",
+    "DESIGN.md section 4/C13")
+
 NOT_YET = {}
 
 def main():
